@@ -55,6 +55,7 @@ typedef struct {
     int record_trace;   /* record schedule trace */
     int reserved;
     uint64_t max_steps; /* cap on scheduling steps per begin/end */
+    uint64_t window_fn; /* if non-zero: access pre-emption only in the region function at this library offset */
 } SimCfg;
 
 typedef struct {
@@ -115,6 +116,7 @@ typedef struct Team {
     int perm[MAX_TEAM];
     int special;    /* starved / greedy thread */
     int rr_next;
+    int explicit_sched; /* replay: this region has recorded segments */
     struct Team *parent;
     int inline_tid; /* for nested teams */
     uint64_t inline_ws_seq;
@@ -122,7 +124,7 @@ typedef struct Team {
 } Team;
 
 /* ------------------------------------------------------------------------------ */
-static SimCfg g_cfg = {1, STRAT_RTC_ID, 0, 0, 0, 0, 0, 0, 0};
+static SimCfg g_cfg = {1, STRAT_RTC_ID, 0, 0, 0, 0, 0, 0, 0, 0};
 static SimStats g_st;
 static uint64_t g_rng = 0x1234567;
 static int g_err = 0;
@@ -253,15 +255,15 @@ static int pick_next(Team *t, int prev) {
     if (nr == 0)
         return -1;
     if (g_replaying) {
-        while (g_irp < g_nrp) {
+        while (t->explicit_sched && g_irp < g_nrp && g_rp[g_irp].tid >= 0) {
             int tid = g_rp[g_irp].tid;
             g_rp_left = g_rp[g_irp].nsteps;
             g_irp++;
-            if (tid >= 0 && tid < t->n && t->th[tid].state == ST_RUNNABLE)
+            if (tid < t->n && t->th[tid].state == ST_RUNNABLE)
                 return tid;
             g_replay_diverged++;
         }
-        g_replay_diverged++;
+        /* nothing (more) recorded for this region: lowest runnable thread, to completion */
         g_rp_left = 0x7fffffff;
         return runnable[0];
     }
@@ -527,22 +529,36 @@ static void parallel_impl(void (*fn)(void *), void *data, unsigned num_threads,
             z = (z ^ (z >> 27)) * 0x94D049BB133111EBULL;
             z ^= z >> 31;
             t->window = (g_cfg.preempt_mean > 0) && ((int)(z % 100) < g_cfg.window_pct);
+            if (g_cfg.window_fn)
+                t->window = (g_cfg.preempt_mean > 0) && (fn_off == g_cfg.window_fn);
         }
         if (g_cfg.strategy == STRAT_STARVE_ONE)
             g_st.starved_regions++;
-        trace_push(-1 - t->window, n);
+        /* region marker: (-1 - window, ordinal << 8 | team size) */
+        trace_push(-1 - t->window, (int32_t)((g_st.regions << 8) | (uint64_t)n));
     } else {
         for (int i = 0; i < n; i++)
             t->perm[i] = i;
         t->window = 0;
-        if (g_irp < g_nrp && g_rp[g_irp].tid < 0) {
-            t->window = (g_rp[g_irp].tid == -2);
-            if (g_rp[g_irp].nsteps != n)
-                g_replay_diverged++;
+        t->explicit_sched = 0;
+        /* leftovers of the previous region (it ended earlier than recorded) */
+        while (g_irp < g_nrp && g_rp[g_irp].tid >= 0) {
             g_irp++;
-        } else {
             g_replay_diverged++;
         }
+        /* markers of regions that did not happen / were skipped in a sparse trace */
+        while (g_irp < g_nrp && g_rp[g_irp].tid < 0 &&
+               (uint64_t)(g_rp[g_irp].nsteps >> 8) < g_st.regions)
+            g_irp++;
+        if (g_irp < g_nrp && g_rp[g_irp].tid < 0 &&
+            (uint64_t)(g_rp[g_irp].nsteps >> 8) == g_st.regions) {
+            t->window = (g_rp[g_irp].tid == -2);
+            if ((g_rp[g_irp].nsteps & 0xff) != n)
+                g_replay_diverged++;
+            t->explicit_sched = 1;
+            g_irp++;
+        }
+        /* else: the trace says nothing about this region: default order, no windows */
     }
     for (int i = 0; i < n; i++) {
         SimThread *th = &threads[i];
